@@ -9,9 +9,10 @@ tokens(text) -> list of (kind, text) with kind in
   'str'  string / char literal
   'pp'   a whole preprocessor line (#include <...>, #version ..., #extension ...)
   'op'   punctuator
-Comments and blanks are dropped.  Anything else (a byte that cannot start a
-token of the target language, e.g. a non-ASCII letter or '$' or '@') is
-returned as ('bad', ch): the emitted text is then not lexically legal."""
+Comments and blanks are dropped.  Identifiers are read with Unicode letters
+allowed (so that a raw non-ASCII name stays one token; the caller decides whether
+the target language permits it).  Anything else (e.g. '$', '@', a control
+character) is returned as ('bad', ch): the emitted text is not lexically legal."""
 import re
 
 _OPS = ["<<=", ">>=", "...", "->*", "::", "->", "++", "--", "<<", ">>", "<=", ">=", "==", "!=", "&&", "||",
@@ -21,7 +22,7 @@ _MASTER = re.compile(
     r"|(?P<nl>\n)"
     r"|(?P<lc>//[^\n]*)"
     r"|(?P<bc>/\*.*?(?:\*/|\Z))"
-    r"|(?P<id>[A-Za-z_][A-Za-z0-9_]*)"
+    r"|(?P<id>[^\W\d]\w*)"          # Unicode letters accepted here; non-ASCII identifiers are judged by the caller
     # pp-number: optional leading '.', a digit, then [0-9A-Za-z_.] and e+/e-/p+/p-
     r"|(?P<num>\.?[0-9](?:[eEpP][+-]|[0-9A-Za-z_.])*)"
     r"|(?P<str>\"(?:\\.|[^\"\\\n])*\"?|'(?:\\.|[^'\\\n])*'?)"
